@@ -29,7 +29,8 @@ def _untag(t):
 class Ctx:
     def __init__(self, atoms):
         # atom = (name, regex over the untagged provenance text[, regex over the call-site tagged text])
-        self.atoms = [(a[0], re.compile(a[1]), re.compile(a[2]) if len(a) > 2 else None) for a in atoms]
+        self.atoms = [(a[0], re.compile(a[1]), re.compile(a[2]) if len(a) > 2 and a[2] else None) for a in atoms]
+        self.pure = set(a[0] for a in atoms if len(a) > 3 and a[3] == "pure")  # same value at every call site (a pure function of unchanged state)
         self.atom_sites = {}  # atom name -> set of tagged texts it matched
         self.int_vars = {}   # text -> smt name
         self.bool_vars = {}
@@ -48,7 +49,14 @@ class Ctx:
         """Atoms that matched call results from more than one call site (two different run-time values under one name)."""
         bad = []
         for n, texts in self.atom_sites.items():
-            sites = set(re.findall("\u27e8(bb\\d+)", " ".join(t for t in texts if _untag(t).startswith("call "))))
+            if n in self.pure:
+                continue
+            sites = set()
+            for t in texts:
+                if _untag(t).startswith("call "):
+                    tags = re.findall("\u27e8(bb\\d+)", t)
+                    if tags:
+                        sites.add(tags[-1])  # the outermost call's own tag is the last one in the text
             if len(sites) > 1:
                 bad.append("%s (%s)" % (n, ", ".join(sorted(sites))))
         return bad
@@ -223,6 +231,48 @@ class Region:
             loc = mm.group(1)
         return None
 
+    def _resolve_at(self, loc, chain, depth=0):
+        """Provenance of `loc` as defined along the chain of predecessor blocks (nearest first); follows copies and
+        `anyhow::__private::not` / `Not` of another multiply-assigned local one more step up the chain."""
+        fn = self.fn
+        if not chain or depth > 4:
+            return None
+        rhs = None
+        while chain:
+            p = chain[0]
+            rhs = self._flag_def(p, loc)
+            if rhs is not None:
+                break
+            chain = chain[1:]  # a pass-through block: look further up
+        if rhs is None:
+            return None
+        rhs = rhs.strip()
+        m = re.match(r"^CALL anyhow::__private::not(?:::<.*>)?\((?:move |copy )?(_\d+)\)$", rhs) or re.match(r"^Not\((?:move |copy )?(_\d+)\)$", rhs)
+        if m and len(fn.build_defs().get(m.group(1)) or []) > 1:
+            inner = self._resolve_at(m.group(1), chain[1:], depth + 1)
+            if inner is None:
+                inner = self._resolve_at(m.group(1), chain, depth + 1)  # defined earlier in the same block
+            if inner is not None:
+                return "not(%s)" % inner
+        m = re.match(r"^(?:move|copy) (_\d+)$", rhs)
+        if m and len(fn.build_defs().get(m.group(1)) or []) > 1:
+            inner = self._resolve_at(m.group(1), chain[1:], depth + 1) or self._resolve_at(m.group(1), chain, depth + 1)
+            if inner is not None:
+                return inner
+        o = MF.rhs_origin(fn, rhs, 0, set())
+        if MF.SITE_TAGS and rhs.startswith("CALL ") and o.startswith("call ") and p.kind == "call" and p.dest == loc:
+            o += MF.site_tag(fn, p.idx)  # same identity as mirflow.origin gives this call result
+        return o
+
+    def _passes_flag(self, b):
+        """A block that only transforms a multiply-assigned flag (not(flag) / copy) before the switch that tests it: it is
+        split per predecessor too, so that the switch can see through it."""
+        if b.kind == "call" and re.search(r"anyhow::__private::not", b.callee or ""):
+            for a in re.findall(r"_\d+", b.args):
+                if len(self.fn.build_defs().get(a) or []) > 1:
+                    return True
+        return False
+
     def _succ_edges(self, b, via=None):
         """[(target idx, smt cond)] for leaving block b.  `via` = predecessor block (for flag switches)."""
         fn, ctx = self.fn, self.ctx
@@ -231,10 +281,8 @@ class Region:
         labels = [l for l, _t in b.succs]
         loc = self._flag_local(b)
         o = None
-        if loc and via is not None:
-            rhs = self._flag_def(via, loc)
-            if rhs is not None:
-                o = MF.rhs_origin(fn, rhs, 0, set())
+        if loc and via:
+            o = self._resolve_at(loc, [fn.blocks[v] for v in via])
         if o is None:
             # discriminant(_x) statements inside the block, or a single reaching definition
             o = MF.origin(fn, b.switch_local or "")
@@ -266,13 +314,44 @@ class Region:
 
     def _needs_via(self, b):
         """A statement-free switch on a local with several definitions: resolve per incoming edge."""
+        if self._passes_flag(b):
+            return True
         if b.kind != "switch":
             return False
         loc = self._flag_local(b)
         if loc is None:
             return False
         ds = self.fn.build_defs().get(loc) or []
-        return len(ds) > 1
+        if len(ds) > 1:
+            return True
+        if len(ds) == 1:
+            rhs = ds[0][2].strip()
+            m = re.match(r"^CALL anyhow::__private::not(?:::<.*>)?\((?:move |copy )?(_\d+)\)$", rhs) or re.match(r"^Not\((?:move |copy )?(_\d+)\)$", rhs) or re.match(r"^(?:move|copy) (_\d+)$", rhs)
+            if m and len(self.fn.build_defs().get(m.group(1)) or []) > 1:
+                return True
+        return False
+
+    def _history_blocks(self):
+        """Blocks within 3 steps before a block that needs its reaching definitions resolved: they carry a short history."""
+        fn = self.fn
+        need = set(i for i, b in fn.blocks.items() if not b.cleanup and self._needs_via(b))
+        preds = {}
+        for i, b in fn.blocks.items():
+            if b.cleanup:
+                continue
+            for (_l, t) in b.succs:
+                preds.setdefault(t, set()).add(i)
+        hist = set(need)
+        frontier = set(need)
+        for _ in range(3):
+            nxt = set()
+            for x in frontier:
+                for p_ in preds.get(x, ()):  # noqa: B007
+                    if p_ not in hist:
+                        hist.add(p_)
+                        nxt.add(p_)
+            frontier = nxt
+        return hist
 
     def _build(self):
         fn = self.fn
@@ -280,6 +359,7 @@ class Region:
         succ = {}
         order = []
         state = {}
+        hist = self._history_blocks()
 
         def node_succs(n):
             idx, via = n
@@ -287,9 +367,10 @@ class Region:
             if idx in self.stop and n not in [(s, None) for s in self.starts]:
                 return []
             res = []
-            for (t, c) in self._succ_edges(b, fn.blocks[via] if via is not None else None):
+            for (t, c) in self._succ_edges(b, via):
                 tb = fn.blocks[t]
-                res.append(((t, idx if self._needs_via(tb) else None), c))
+                chain = ((idx,) + (via or ()))[:4] if t in hist else None
+                res.append(((t, chain), c))
             return res
 
         import sys
@@ -435,14 +516,18 @@ def decides(funcs, fname, start, outcomes, atoms, spec, containing=None, declare
             out.append(MF.Result("holds", "unsat: %s decides `%s` exactly as specified" % (fc.name.split("::")[-1], n), queries=1, seconds=dt, sample=smp))
         elif res == "sat":
             names = {v: k for k, v in list(reg.ctx.int_vars.items()) + list(reg.ctx.bool_vars.items())}
-            vals = []
+            vals, opaque = [], []
+            atom_names = [a[0] for a in reg.ctx.atoms]
             for k, v in sorted(model.items()):
                 if re.match(r"^p\d+$", k):
                     continue
-                label = k if names.get(k, "").startswith("atom:") or k in [a[0] for a in reg.ctx.atoms] else "%s[%s]" % (k, names.get(k, "?")[:50])
-                vals.append("%s=%s" % (label, v))
+                if k in atom_names:
+                    vals.append("%s=%s" % (k, v))
+                else:
+                    opaque.append("%s[%s]=%s" % (k, _untag(names.get(k, "?"))[:50], v))
+            vals = vals + opaque  # the named atoms first
             # does the code reach the outcome on these values?
-            out.append(MF.Result("violated", "%s: the code's condition for `%s` differs from the property's (%s) at: %s" % (what or fc.name.split("::")[-1], n, formula[:120], ", ".join(vals)[:400]),
+            out.append(MF.Result("violated", "%s: the code's condition for `%s` differs from the property's (%s) at: %s" % (what or fc.name.split("::")[-1], n, formula[:120], ", ".join(vals)[:700]),
                                  queries=1, seconds=dt, sample=smp))
         else:
             out.append(MF.Result("inconclusive", "z3: %s" % str(model)[:200], queries=1, seconds=dt, sample=smp))
